@@ -514,6 +514,9 @@ def correspond(model_ok, res):
         #    abandons the generator) answers as a fresh one
         rc = reused.setdefault(z, check_mod.LuceneCheck(zeal=z))
         hist = history.setdefault(z, [])
+        if len(hist) % 50 == 20:
+            # a call that cannot complete (a tree deeper than the recursion limit), then the history goes on
+            hist.append("checker.errors(<3000-level tree>) -> %s" % gentree.aborted_call(rc.errors, T))
         try:
             rcall = ("done", rc(tree))
         except Exception as ex:   # noqa
